@@ -1038,13 +1038,25 @@ fire("c05-revert-inline-rec-guard", ["C05"], OPF,
      "        if False:\n",
      "T/optimizer/inline_rec/keeps-cache")
 fire("c05-varargs-removed-always", ["C05"], OPF,
-     "                          if not self.drop_args or not isinstance(arg, ast.Starred)],",
-     "                          if not isinstance(arg, ast.Starred)],",
+     "                          if not (self.drop_args\n"
+     "                              and isinstance(arg, ast.Starred)\n",
+     "                          if not (True\n"
+     "                              and isinstance(arg, ast.Starred)\n",
      "T/optimizer/_VarArgsRemover/*args")
 fire("c05-kwargs-flag-crossed", ["C05"], OPF,
-     "                          if not self.drop_kwargs or kw.arg is not None])",
-     "                          if not self.drop_args or kw.arg is not None])",
+     "                          if not (self.drop_kwargs\n"
+     "                              and kw.arg is None\n",
+     "                          if not (self.drop_args\n"
+     "                              and kw.arg is None\n",
      "T/optimizer/_VarArgsRemover/**kwargs")
+fire("c05-optimizer-every-starred-argument-removed", ["C05"], OPF,
+     "                              and self._is_dropped(arg.value, self.vararg_name))],",
+     "                              )],",
+     "T/optimizer/only-dropped-splats-removed:args")
+fire("c05-optimizer-every-mapping-splat-removed", ["C05"], OPF,
+     "                              and self._is_dropped(kw.value, self.kwarg_name))])",
+     "                              )])",
+     "T/optimizer/only-dropped-splats-removed:keywords")
 fire("c05-signature-flag-crossed", ["C05"], OPF,
      "                        kwarg=None if drop_kwargs else mdef.args.kwarg))",
      "                        kwarg=None if drop_args else mdef.args.kwarg))",
@@ -1166,10 +1178,19 @@ fire("c12-wrap-in-cse-wraps-wrappers", ["C12"], PR,
      "        return CommonSubexpression(expr, prefix)",
      "O/wrap_in_cse/")
 fire("c12-wrap-in-cse-wraps-variables", ["C12"], PR,
-     "    if isinstance(expr, (Variable, Subscript)):\n        return expr\n\n"
+     "    if isinstance(expr, (Variable, Subscript)) or is_constant(expr):\n"
+     "        return expr\n\n"
      "    if isinstance(expr, CommonSubexpression):\n        if prefix is None:",
      "    if isinstance(expr, CommonSubexpression):\n        if prefix is None:",
      "O/wrap_in_cse/")
+fire("c12-wrap-in-cse-wraps-constants", ["C12"], PR,
+     "    if isinstance(expr, (Variable, Subscript)) or is_constant(expr):\n",
+     "    if isinstance(expr, (Variable, Subscript)):\n",
+     "O/wrap_in_cse/constants-left-unwrapped")
+fire("c12-make-cse-wraps-variables", ["C12"], PR,
+     "        if is_constant(field) or isinstance(field, (Variable, Subscript)):\n",
+     "        if is_constant(field):\n",
+     "O/make_common_subexpression/variables-left-unwrapped")
 fire("c12-commutative-classes-grow", ["C12"], CSF,
      "COMMUTATIVE_CLASSES = (prim.Sum, prim.Product)",
      "COMMUTATIVE_CLASSES = (prim.Sum, prim.Product, prim.BitwiseOr, prim.Min)",
@@ -1216,7 +1237,9 @@ fire("c12-mixin-loses-mro", ["C12", "C02"], EVF,
      "    def map_common_subexpression(self, expr):\n        return self.rec(expr.child)\n",
      "cse-mixin")
 fire("c12-make-cse-wraps-constants", ["C12"], PR,
-     "        if is_constant(field):\n            return field\n        else:\n"
+     "        if is_constant(field) or isinstance(field, (Variable, Subscript)):\n"
+     "            # nothing to share\n"
+     "            return field\n        else:\n"
      "            return CommonSubexpression(field, prefix, scope)",
      "        return CommonSubexpression(field, prefix, scope)",
      "O/make_common_subexpression")
@@ -2748,3 +2771,12 @@ fire("c05-optimizer-temporaries-plain-names", ["C05"], OPF,
      "_TMP_PREFIX = \"_pymbolic_opt_\"\n",
      "_TMP_PREFIX = \"\"\n",
      "T/optimizer/temporaries-cannot-capture-locals")
+
+# ---- round 3 of seeded changes / clean-tree findings -----------------------
+fire("c09-descend-args-skips-computed-head", ["C09"], "pymbolic/mapper/dependency.py",
+     "                    self._rec_computed_head(expr, *args, **kwargs)\n"
+     "                    + [self.rec(child, *args, **kwargs)\n"
+     "                        for child in expr.parameters])",
+     "                    [self.rec(child, *args, **kwargs)\n"
+     "                        for child in expr.parameters])",
+     "T/DependencyMapper/map_call/descend-args/computed-head")
